@@ -15,6 +15,9 @@ import (
 	_ "verifsim/worlds/stateworld"
 	_ "verifsim/worlds/votedbworld"
 	_ "verifsim/worlds/networld"
+	_ "verifsim/worlds/voterworld"
+	_ "verifsim/worlds/c01world"
+	_ "verifsim/worlds/c17world"
 	_ "verifsim/worlds/poolworld"
 	_ "verifsim/worlds/evmworld"
 	_ "verifsim/worlds/c05world"
